@@ -59,7 +59,12 @@ def main():
             print("patch does not apply:", out)
             return 2
         # demo files
-        demo_crate = meta.get("demo_crate")
+        demo_crate = (meta.get("demo_crate") or "").split()[0] if meta.get("demo_crate") else None
+        crate_dirs = {"rustpython-literal": "literal", "rustpython-parser": "parser", "rustpython-format": "format",
+                      "rustpython-ast": "ast", "rustpython-parser-core": "core",
+                      "rustpython-parser-vendored": "vendored"}
+        if demo_crate:
+            demo_crate = crate_dirs.get(demo_crate.strip("`'\","), demo_crate.strip("`'\",").rstrip("/"))
         demo_files = [f for f in os.listdir(src) if f not in ("patch.diff", "meta.json") and not f.startswith(".")]
         demo_cmd = meta.get("demo_cmd", "")
         # 1. baseline with patch
